@@ -41,4 +41,5 @@ def jobs(tier):
     out += mk('C01', 'deep4/ff', S.deep4('ff'))
     out += mk('C01', 'deep4/ff/wild_raise', S.deep4('ff', wild_raise=True))
     out += matrix_jobs('C01', 'm3', tier)
+    out += matrix_jobs('C01', 'm4', tier)
     return flat(out)
